@@ -145,6 +145,9 @@ func (ms *Modules) resolveIdentities() []error {
 	// name of the identity.
 	for _, mod := range ms.Modules {
 		for _, i := range mod.Identities() {
+			// Derivations are collected anew: what an earlier run found
+			// may rest on an import that is bound differently by now.
+			i.Values = nil
 			_, r := newResolvedIdentity(mod, i)
 			ms.typeDict.identities.dict[identityKey(mod, i.Name)] = *r
 		}
@@ -162,6 +165,7 @@ func (ms *Modules) resolveIdentities() []error {
 				}
 				hoisted[in.Module] = true
 				for _, i := range in.Module.Identities() {
+					i.Values = nil
 					_, r := newResolvedIdentity(in.Module, i)
 					ms.typeDict.identities.dict[identityKey(mod, i.Name)] = *r
 				}
